@@ -3,9 +3,11 @@
    and of the Modern Forge login relay's use of it (forge_login_relay.go: relayToClient,
    forgeRelayConsumer.OnMessageResponse).  Executable definitions only; proofs in Proofs/C13.v.
 
-   Two variants: [Impl] is the code as it is; [Spec] differs in one point — the completion callback
-   (onAllMessagesHandled) is taken out of the struct (set to nil) inside the critical section that
-   decides to run it, so it can run only once.
+   Two variants: [Impl] is the code as it is (since fix commit 7206740: the completion callback
+   onAllMessagesHandled is taken out of the struct, i.e. set to nil, inside the critical section
+   that decides to run it, and loginEventFired with nothing queued runs it without storing it);
+   [Prefix] is the PRE-fix code, kept for the record of finding C13-1: it never cleared the
+   callback, so the callback ran again whenever a later response emptied the outstanding set.
 
    Granularity.  l.mu guards outstandingResponses, loginMessagesToSend, isLoginEventFired and
    onAllMessagesHandled; consumers, the callback and connection writes run without the lock.  Each
@@ -19,7 +21,7 @@
 From Coq Require Import List ZArith NArith Bool Arith.
 Import ListNotations.
 
-Inductive variant := Impl | Spec.
+Inductive variant := Prefix (* pre-fix code, finding C13-1 *) | Impl (* the code as it is *).
 
 Definition body := list N.                  (* bytes *)
 Definition arg := option body.              (* what a consumer receives: Some data on success, nil on failure *)
@@ -158,7 +160,7 @@ Definition r_check (v : variant) (r : nat) (s : state) : state * list event :=
   if l_hit l then
     let done := match outstanding s with [] => true | _ => false end in
     let cb := on_all s in
-    let on' := match v with Impl => cb | Spec => if done then false else cb end in
+    let on' := match v with Prefix => cb | Impl => if done then false else cb end in
     (set_local (mkSt (seqc s) (outstanding s) (queue s) (fired s) on' (proto_ok s) (locals s)) r
                (mkLocal (l_id l) (l_fired l) (l_tok l) true done (done && cb) (l_msgs l)), [])
   else (s, []).
@@ -174,7 +176,7 @@ Definition r_complete (r : nat) (s : state) : state * list event :=
 Definition f_fire (v : variant) (r : nat) (s : state) : state * list event :=
   let l := get_local s r in
   let empty := match queue s with [] => true | _ => false end in
-  let on' := match v with Impl => true | Spec => negb empty end in
+  let on' := match v with Prefix => true | Impl => negb empty end in
   (set_local (mkSt (seqc s) (outstanding s) [] true on' (proto_ok s) (locals s)) r
              (mkLocal (l_id l) (l_fired l) (l_tok l) false false empty (queue s)), [EFire]).
 
